@@ -284,6 +284,51 @@ func runC14(c *bx.Ctx) {
 			c14Negative(c, math.Float32frombits(0x80000000|e<<23|m))
 		}
 	}
+	// ---- MarshalTo: caller-supplied buffers
+	c.Space("MarshalTo")
+	for _, n := range []int{0, 1, 2, 255} {
+		for _, f := range []float32{0, 1, 262143, 262144, 8927168, 1e12, 3e38} {
+			if !c.Mine() {
+				continue
+			}
+			p := rtcp.ReceiverEstimatedMaximumBitrate{SenderSSRC: 0x902f9e2e, Bitrate: f}
+			for i := 0; i < n; i++ {
+				p.SSRCs = append(p.SSRCs, 0xa0000000+uint32(i))
+			}
+			want, err := p.Marshal()
+			c.T(1)
+			if err != nil {
+				continue
+			}
+			size := len(want)
+			for _, bl := range []int{0, 1, 19, size - 1, size, size + 1, size + 64} {
+				if bl < 0 {
+					continue
+				}
+				buf := make([]byte, bl)
+				for i := range buf {
+					buf[i] = 0xEE
+				}
+				var got int
+				var merr error
+				msg, pan := bx.Guard(func() { got, merr = p.MarshalTo(buf) })
+				c.T(1)
+				rp := bx.Replay{Entry: "ReceiverEstimatedMaximumBitrate.MarshalTo", Value: fmt.Sprintf("%d SSRCs bitrate %g buffer %d octets", n, f, bl), Expected: "size or error", Observed: fmt.Sprint(got, merr, msg)}
+				switch {
+				case pan:
+					c.Report("C14/MarshalTo/panic", "MarshalTo panics on a caller buffer", rp)
+				case bl < size && (merr == nil || got != 0):
+					c.Report("C14/MarshalTo/short-buffer-accepted", "MarshalTo succeeds on a buffer shorter than MarshalSize", rp)
+				case bl >= size && (merr != nil || got != size || string(buf[:size]) != string(want)):
+					c.Report("C14/MarshalTo/bytes", "MarshalTo does not write exactly the Marshal bytes", rp)
+				case bl > size && buf[size] != 0xEE:
+					c.Report("C14/MarshalTo/writes-past-size", "MarshalTo writes past the packet size", rp)
+				default:
+					c.NT()
+				}
+			}
+		}
+	}
 	// ---- SSRC count octet
 	c.Space("ssrc-count")
 	for n := 0; n <= 257; n++ {
